@@ -133,6 +133,11 @@ func verif_VUpdateAll(vm *Manager, cfgs []v1.VisitorConfigurer) {
 	if len(cfgs) == 0 {
 		verif.Ensures(!verif.Called(evStartV), "nothing_started_for_an_empty_configuration")
 	}
+	// "the set of registered visitors converges to exactly the configured set":
+	// the removal pass (whose every step is verifVReloadDrop) and the start pass
+	// run for every new configuration - the empty one included, which is the one
+	// that has to stop the last visitors
+	verif.Ensures(verif.Called("loop:(*github.com/fatedier/frp/client/visitor.Manager).UpdateAll#1") && verif.Called("loop:(*github.com/fatedier/frp/client/visitor.Manager).UpdateAll#2"), "removal_and_start_pass_run_for_every_configuration")
 }
 
 // TransferConn: the connection goes to the visitor registered under exactly
